@@ -316,8 +316,8 @@ GROUPS["cnf_parser_t2"] = dict(_MODEL, **{
     "harnesses": [
         ("next_clause_i8", {"props": ["C06", "C04", "C09", "C05", "C07"], "cost": 6, "what": "cnf next_clause from any parser state: clause-count gating, clean end only via eof with all clauses read, literals as produced, returns right after the line end"}),
         ("next_clause_isize", {"props": ["C06", "C09"], "cost": 9, "tiers": T, "rss_gb": 24, "what": "cnf next_clause::<isize>"}),
-        ("new_i8", {"props": ["C06", "C05"], "cost": 6, "what": "cnf Parser::new: header values, limits installed iff !ignore_header and non-zero"}),
-        ("new_isize", {"props": ["C06"], "cost": 6, "what": "cnf Parser::new::<isize>"}),
+        ("new_i8", {"props": ["C06", "C05", "C07"], "flags": ["--default-unwind", "9"], "cost": 6, "what": "cnf Parser::new: header values, limits installed iff !ignore_header and non-zero"}),
+        ("new_isize", {"props": ["C06"], "flags": ["--default-unwind", "9"], "cost": 6, "what": "cnf Parser::new::<isize>"}),
         ("reach_cnf_parser", {"kind": "reach", "cost": 4, "what": "vacuity twin"}),
     ],
 })
@@ -511,7 +511,7 @@ PROPERTIES["C14"] = {
 
 PROPERTIES["C07"] = {
     "level": "other",
-    "groups": ["cnf_token_t0", "cnf_token_small", "text_t0"],
+    "groups": ["cnf_token_t0", "cnf_token_small", "text_t0", "cnf_parser_t2"],
     "claim": "Layout independence is decided as a set of token-level lemmas, each a SAT-based bounded model check of the real tokenizer function on a fully symbolic window: every token consumes itself plus the maximal run of blanks, its value ignores leading zeros and '-0', newline = LF|CRLF, comments and blank lines are skipped as units, end of word = blank/CR/LF/end. The step from the lemmas to whole documents is a paper induction over the token sequence (parsers are sequential and only see the input through these functions).",
     "level_note": "Window N bytes per token; document-level composition is by induction, not by a solver run (whole-parser symbolic execution is out of reach, DESIGN.md section 1). Statement loops of the parsers are covered by the T2 harnesses where present.",
     "functions": ["flussab_cnf::token::{is_end_of_word, word, fixed, uint, int, braced_uint, comment, interactive_strict_comment, interactive_skip_line, newline, interactive_newline, eof, interactive_end_of_line, skip_whitespace, non_terminating_linebreaks}", "flussab::text::{tabs_or_spaces, newline}"],
